@@ -15,9 +15,12 @@ k_0 = 0.9996
 # Ellipsoid constants
 class Ellipsoid(object):
     def __init__(self, semimaj, inversef):
-        self.semimaj = semimaj
+        # the axis is kept as a float: users of the ellipsoid square it, and a
+        # numpy integer of 32 bits (6378137 read from an integer array)
+        # overflows there without any error
+        self.semimaj = float(semimaj)
         self.inversef = inversef
-        self.f = 1 / self.inversef
+        self.f = 1 / float(self.inversef)
         self.semimin = float(self.semimaj * (1 - self.f))
         self.ecc1sq = float(self.f * (2 - self.f))
         self.ecc2sq = float(self.ecc1sq / (1 - self.ecc1sq))
